@@ -3,7 +3,7 @@ of every execution into the report."""
 import json
 from .report import Violation, Report
 from .explorer import pmap, chunked, Chooser, NPROC
-from .families import f1, f2, f3
+from .families import f1, f2, f3, f5
 
 RULE = {
     "F1": ("F1: every command sequence with <=k deviations from a default policy (menu: odd sizes, oversubscribing batches, wrong pools, "
@@ -26,7 +26,10 @@ def fold(rep, pid, family, sc, tot):
         rep.cap(f"{family}:{name} execution cap")
     for tags, kind, site, detail, choices in tot["mm"]:
         if pid in tags:
-            if isinstance(choices, dict):   # F3: the case itself
+            if isinstance(choices, dict) and "item" in choices:   # F5: (algo, cfg, combo, tps, kw)
+                algo, cfg, combo, tps, kw = choices["item"]
+                rep.add_violations([Violation(family, kind, detail, f5.build(algo, cfg, combo, tps, **kw), [], site=site, family="F5")])
+            elif isinstance(choices, dict):   # F3: the case itself
                 rep.add_violations([Violation(family, kind, detail, choices, [], site=site, family=family)])
             else:
                 rep.add_violations([Violation(family, kind, detail, sc, choices, site=site, family=family)])
@@ -69,18 +72,44 @@ def run_f3(rep, pid, tier, seed=0):
     rep.sample(dict(family="F3", containers=cs[len(cs) // 2], overcommit=True))
 
 
+RULE["F5"] = ("F5: the real shipped scheduler + real executor in run_simulator's phase order over the full product of a scenario alphabet "
+              "(arrival-sorted lists of 1..4 pipelines x priorities x DAG shapes x operator profiles x pool configurations x container mode x tick rate); "
+              "per-round policy predicates over decisions and ground-truth state, executor-side model comparison stays on")
+
+
+def run_f5(rep, pid, tier, kinds, seed=0, sub=None):
+    for kind in kinds:
+        sp = f5.space(kind, tier, seed)
+        if sub:
+            sp = sp[::sub]
+        res = pmap(f5.work, chunked(sp, NPROC * 16), chunks=1)
+        for tot in res:
+            fold(rep, pid, "F5:" + kind, None, tot)
+        rep.cov["parts"]["F5:" + kind]["scenarios"] = len(sp)
+        if sp:
+            algo, cfg, combo, tps, kw = sp[len(sp) // 2]
+            rep.sample(dict(family="F5", scenario=f5.build(algo, cfg, combo, tps, **kw)))
+
+
 def sim_main(pid, tier, seed, families, rule_extra=""):
     rep = Report(pid, tier, seed)
-    rep.cov["rule"] = "; ".join(RULE[f] for f in families) + "; " + NONTRIVIAL + rule_extra
+    rep.cov["rule"] = "; ".join(dict.fromkeys(RULE[f.split(":")[0]] for f in families)) + "; " + NONTRIVIAL + rule_extra
     for f in families:
-        {"F1": run_f1, "F2": run_f2, "F3": run_f3}[f](rep, pid, tier)
+        if f.startswith("F5:"):
+            run_f5(rep, pid, tier, f[3:].split(","), seed)
+        else:
+            {"F1": run_f1, "F2": run_f2, "F3": run_f3}[f](rep, pid, tier)
     return rep
 
 
 def replay(rec):
     fam = rec.get("family", "F1")
     pid = rec["property"]
-    if fam == "F3":
+    if fam == "F5":
+        sc = rec["scenario"]
+        tr = []
+        w = f5.run(sc, tr)
+    elif fam == "F3":
         sc = f3.scenario([tuple(c) for c in rec["scenario"]["conts"]], rec["scenario"]["overcommit"])
         tr = []
         w = f3.run(sc, tr)
